@@ -239,6 +239,22 @@ class CaseEval:
             r = self.ev(t)
             if r != t:
                 return self.poly(r)
+        if h == "acc" and t[1] in self.sx.loops:
+            # a hand-kept element number: started at 0, advanced by exactly one on EVERY path through the (inner) loop body, never
+            # touched elsewhere - in iteration (i, j) of `for i in range(L): for j in range(W)` it is i*W + j
+            from .symx import simp as _simp
+            Lj, v = self.sx.loops[t[1]], t[2]
+            acc_j = ("acc", Lj.id, v)
+            if Lj.kind == "for" and Lj.update.get(v) == _simp(("add", (acc_j, ("c", 1)))) and ("elem", Lj.id) in self.binds and not Lj.has_break and not Lj.has_return \
+                    and Lj.source[0] == "call" and Lj.source[1] == "range" and len(Lj.source[2]) == 1:
+                init = Lj.init.get(v)
+                if init == ("c", 0):
+                    return self.binds[("elem", Lj.id)]
+                if init is not None and init[0] == "acc" and init[1] in self.sx.loops and init[2] == v:
+                    Li = self.sx.loops[init[1]]
+                    if Li.kind == "for" and Li.update.get(v) == ("res", Lj.id, v) and Li.init.get(v) == ("c", 0) and ("elem", Li.id) in self.binds \
+                            and not Li.has_break and not Li.has_return and Lj.id in Li.inner and Li.source[0] == "call" and Li.source[1] == "range" and len(Li.source[2]) == 1:
+                        return self.binds[("elem", Li.id)] * self.poly(Lj.source[2][0]) + self.binds[("elem", Lj.id)]
         raise Undecided("term `%s` is not an index polynomial" % show(t))
 
     def cmp(self, op, a, b):
